@@ -1,0 +1,9 @@
+//go:build verif
+
+package bft
+
+// Verification hooks (build tag `verif` only; add-only, nothing here is compiled into normal builds).
+
+// VerifSetProposalVoteDeadline sets the deadline until which the controller votes on governance proposals by its approve
+// list (Start() sets it on every NEW_HEIGHT reset; harnesses that drive the controller without the BFT loop set it here).
+func (b *BFT) VerifSetProposalVoteDeadline(unixMilli int64) { b.deadlineMs.Store(unixMilli) }
